@@ -41,11 +41,25 @@ def plan(tier):
 
 def required(tier):
     return [f"sub:{s}" for s in SUBS] + ["bgzf_multi_block_configs", "lines_crossing_block_boundary", "gz_graph_configs",
-                                         "index_offsets_resolved", "gsi_offsets_resolved", "text_variant_crlf", "text_variant_utf8"]
+                                         "index_offsets_resolved", "gsi_offsets_resolved", "text_variant_crlf", "text_variant_utf8",
+                                         "gz_graph_multi_member", "gz_graph_single_member"]
 
 
 def setup(ctx):
     pass
+
+
+def bgzf_members(path):
+    """number of gzip members of a .gz file (1 for ordinary gzip output)"""
+    import zlib
+    data = open(path, "rb").read()
+    n = 0
+    while data:
+        d = zlib.decompressobj(wbits=zlib.MAX_WBITS | 16)
+        d.decompress(data)
+        data = d.unused_data
+        n += 1
+    return n
 
 
 def text_variant(lines, rng, sit):
@@ -88,6 +102,10 @@ def write_configs(casedir, lines, graph_writer, rng, sit):
         gfa = graph_writer(os.path.join(d, "g.gfa" + (".gz" if gz else ""))) if graph_writer else None
         if gz:
             sit["gz_graph_configs"] += 1
+            if gfa and bgzf_members(gfa) > 1:
+                sit["gz_graph_multi_member"] += 1
+            else:
+                sit["gz_graph_single_member"] += 1
         out.append((f"{mode}/{layout or '-'}/{'gz' if gz else 'plain'}", gaf, gfa))
     return out
 
@@ -132,7 +150,7 @@ def run_case(ctx, rng, index, casedir):
         if stable:
             lines = [rgaf.ref_to_stable(g, l) for l in lines]
         lines = text_variant(lines, rng, sit)
-        cfgs = write_configs(casedir, lines, lambda p: g.write(p), rng, sit)
+        cfgs = write_configs(casedir, lines, lambda p: g.write(p, rng=rng), rng, sit)
         coords = rgaf.Coords(g)
         if sub == "view_format":
             res = []
@@ -215,7 +233,7 @@ def run_case(ctx, rng, index, casedir):
     elif sub == "sort":
         w = SC.build(rng, casedir, index, nrec=nrec, mode="plain", text_variants=False)
         w.lines = text_variant(w.lines, rng, sit)
-        cfgs = write_configs(casedir, w.lines, lambda p: w.g.write(p, bo_no=w.tags), rng, sit)
+        cfgs = write_configs(casedir, w.lines, lambda p: w.g.write(p, bo_no=w.tags, rng=rng), rng, sit)
         res, idxres = [], []
         for label, gaf, gfa in cfgs:
             out = gaf + ".sorted"
@@ -253,7 +271,7 @@ def run_case(ctx, rng, index, casedir):
         from vf import realign_run as RR
         w = RR.make_workload(rng, casedir, min(nrec, 900), read_len=(20, 120))
         w.lines = text_variant(w.lines, rng, sit)
-        cfgs = write_configs(casedir, w.lines, lambda p: w.g.write(p), rng, sit)
+        cfgs = write_configs(casedir, w.lines, lambda p: w.g.write(p, rng=rng), rng, sit)
         res = []
         for label, gaf, gfa in cfgs:
             out = gaf + ".re"
@@ -272,9 +290,10 @@ def run_case(ctx, rng, index, casedir):
             f.write("\n".join(paths) + "\n")
         res = []
         for gz in (False, True):
-            gfa = g.write(os.path.join(casedir, "g.gfa" + (".gz" if gz else "")))
+            gfa = g.write(os.path.join(casedir, "g.gfa" + (".gz" if gz else "")), rng=rng)
             if gz:
                 sit["gz_graph_configs"] += 1
+                sit["gz_graph_" + getattr(g, "gz_members", "single") + "_member"] += 1
             out = gfa + ".fp"
             o = run_cli(["find_path", gfa, pf, "-o", out, "--fasta"])
             evals += 1
@@ -287,9 +306,10 @@ def run_case(ctx, rng, index, casedir):
         for gz in (False, True):
             d = os.path.join(casedir, "gz" if gz else "pl")
             os.makedirs(d, exist_ok=True)
-            gfa = g.write(os.path.join(d, "g.gfa" + (".gz" if gz else "")))
+            gfa = g.write(os.path.join(d, "g.gfa" + (".gz" if gz else "")), rng=rng)
             if gz:
                 sit["gz_graph_configs"] += 1
+                sit["gz_graph_" + getattr(g, "gz_members", "single") + "_member"] += 1
             run = OC.run_order(gfa, os.path.join(d, "out"), order, True, True)
             evals += 1
             content = {}
